@@ -113,7 +113,13 @@ pub struct ColSpec {
 
 #[derive(Serialize, Deserialize, Clone, Debug, PartialEq)]
 pub struct TableSpec {
+    /// SQL name = the table's path: what queries, the engine and the rendered SQL use.
     pub name: String,
+    /// Name of the qrlew relation when it differs from the path (as in the repository's own test
+    /// database: path `user_table`, name `users`); the catalogue registers the relation under
+    /// both keys and a privacy-unit entry may use either.
+    #[serde(default)]
+    pub qrlew_name: Option<String>,
     pub cols: Vec<ColSpec>,
     /// Declared size (what the compiler is told; the instance may differ).
     pub size: i64,
@@ -121,6 +127,13 @@ pub struct TableSpec {
 }
 
 impl TableSpec {
+    pub fn relation_name(&self) -> &str {
+        self.qrlew_name.as_deref().unwrap_or(self.name.as_str())
+    }
+    /// Does a catalogue key (path or relation name) designate this table?
+    pub fn has_key(&self, key: &str) -> bool {
+        self.name == key || self.qrlew_name.as_deref() == Some(key)
+    }
     pub fn col_index(&self, name: &str) -> Option<usize> {
         self.cols.iter().position(|c| c.name == name)
     }
@@ -198,11 +211,16 @@ pub struct Scenario {
 }
 
 impl Scenario {
-    pub fn table(&self, name: &str) -> Option<&TableSpec> {
-        self.tables.iter().find(|t| t.name == name)
+    /// Resolve a catalogue key (path or relation name).
+    pub fn table(&self, key: &str) -> Option<&TableSpec> {
+        self.tables.iter().find(|t| t.has_key(key))
     }
+    /// `name` is the SQL name (path) of a table.
     pub fn is_protected(&self, name: &str) -> bool {
-        self.pu.entries.iter().any(|e| e.table == name)
+        match self.tables.iter().find(|t| t.name == name) {
+            Some(t) => self.pu.entries.iter().any(|e| t.has_key(&e.table)),
+            None => false,
+        }
     }
 
     /// The catalogue as the compiler sees it.
@@ -223,12 +241,16 @@ impl Scenario {
                 };
             }
             let rel: Relation = Relation::table()
-                .name(t.name.as_str())
+                .name(t.relation_name())
                 .path([t.name.as_str()])
                 .size(t.size)
                 .schema(schema)
                 .build();
-            h = h.with(vec![(vec![t.name.clone()], Arc::new(rel))]);
+            let rel = Arc::new(rel);
+            h = h.with(vec![(vec![t.name.clone()], rel.clone())]);
+            if let Some(n) = &t.qrlew_name {
+                h = h.with(vec![(vec![n.clone()], rel)]);
+            }
         }
         h
     }
